@@ -5,7 +5,7 @@
 # Two builds of the same harness + library: the primary one (optimised, debug assertions and overflow checks ON -- what
 # `cargo test` exercises) and "nodebug" (both OFF -- what `cargo build --release` gives users of the library). Every check
 # runs on the primary build; the checks listed in SECOND_PASS (SECOND_PASS_THOROUGH in the thorough tier) run a second time on the
-# nodebug build. Exit code: 1 if either pass reports a violation, else 2 if either had a machinery error, else 0.
+# nodebug build (C18 instead compares the results of its operations between the two builds). Exit code: 1 if either pass reports a violation, else 2 if either had a machinery error, else 0.
 set -u
 export CARGO_NET_OFFLINE=true
 SECOND_PASS="C02 C04 C05 C06 C07 C08 C09 C10 C11 C12 C13 C14 C15 C16 C17 C19 C20"
@@ -25,6 +25,9 @@ primary=/verif/target/release/bppmc
 second=/verif/target/nodebug/bppmc
 if [ "${1:-}" = "replay" ]; then
   prof=$(jq -r '.build_profile // ""' "$2" 2>/dev/null)
+  if [ "$(jq -r '.property // ""' "$2" 2>/dev/null)" = "C18" ]; then
+    build "--profile nodebug" /verif/target/build-nodebug.log; export BPPMC_OTHER_BUILD=$second
+  fi
   case "$prof" in
     nodebug*) build "--profile nodebug" /verif/target/build-nodebug.log; BPPMC_PROFILE=nodebug exec $second "$@" ;;
     *) exec $primary "$@" ;;
@@ -35,6 +38,10 @@ id=${2:-}
 tier=${VERIF_TIER:-quick}
 prev=""
 for a in "$@"; do [ "$prev" = "--tier" ] && tier=$a; prev=$a; done
+# C18 compares what each of its operations returns, alone in a fresh process, between the two builds
+if [ "$id" = "C18" ]; then
+  build "--profile nodebug" /verif/target/build-nodebug.log; export BPPMC_OTHER_BUILD=$second
+fi
 $primary "$@"; c1=$?
 c2=0
 sp="$SECOND_PASS"; [ "$tier" = "thorough" ] && sp="$SECOND_PASS_THOROUGH"
